@@ -1488,3 +1488,58 @@ def family_bodies(F, fn, depth=3):
 
 def family_calls(F, fn, depth=3):
     return [c for b in family_bodies(F, fn, depth) for c in b.calls]
+
+
+def param_sources(body, op, passthru=('into_bigint', 'to_bigint', 'from', 'deref', 'clone', 'borrow', 'into', 'as_ref', 'into_owned', 'neg', 'abs')):
+    """which parameters (local numbers 1..argc) can an operand's value come from? Field-sensitive through tuple aggregates
+    (`match (self, other)`), through copies, references, casts and the listed identity-like calls (first argument)."""
+    argc = body.raw.get('argc', 0)
+    out = set()
+    seen = set()
+
+    def place(pl, depth):
+        if depth > 40:
+            return
+        L = pl[0]
+        fields = [p_ for p_ in pl[1:] if isinstance(p_, str) and p_.startswith('f')]
+        key = (L, tuple(fields[:1]))
+        if key in seen:
+            return
+        seen.add(key)
+        if 1 <= L <= argc:
+            out.add(L)
+            return
+        for (bb, j, kind, st) in body.defs().get(L, []):
+            if kind == 'a':
+                rv = st[2]
+                if len(st[1]) > 1:
+                    continue
+                if rv[0] == 'use' and rv[1][0] in ('c', 'm'):
+                    place(rv[1][1] + [p_ for p_ in pl[1:]], depth + 1)
+                elif rv[0] == 'ref':
+                    place(rv[2] + [p_ for p_ in pl[1:]], depth + 1)
+                elif rv[0] == 'cast' and rv[2][0] in ('c', 'm'):
+                    place(rv[2][1], depth + 1)
+                elif rv[0] == 'agg' and rv[1] == 'tuple' and fields:
+                    idx = int(fields[0][1:].split(':')[0])
+                    if idx < len(rv[5]) and rv[5][idx][0] in ('c', 'm'):
+                        rest = pl[1:]
+                        # drop the first field projection, keep the others
+                        k = rest.index(fields[0])
+                        place(rv[5][idx][1] + rest[k + 1:], depth + 1)
+                elif rv[0] == 'agg':
+                    for o in rv[5]:
+                        if o[0] in ('c', 'm'):
+                            place(o[1], depth + 1)
+                elif rv[0] in ('bin',):
+                    for o in rv[2:4]:
+                        if o[0] in ('c', 'm'):
+                            place(o[1], depth + 1)
+            elif kind == 'call':
+                t = st
+                tgt = (t[1].get('r') or t[1].get('d') or '')
+                if tgt.rsplit('::', 1)[-1] in passthru and t[2] and t[2][0][0] in ('c', 'm'):
+                    place(t[2][0][1], depth + 1)
+    if op[0] in ('c', 'm'):
+        place(op[1], 0)
+    return out
